@@ -319,6 +319,8 @@ class Sim(object):
                 rec['elapsed'] = self.clock.t - t0
                 rec['t_start'], rec['t_end'] = t0, self.clock.t
                 rec['ops'] = self.line.ops - ops0
+                # the pauses the client took between attempts (sleeps of at least the configured back-off)
+                rec['pauses'] = sum(d for t, d in self.clock.sleeps if t >= t0 and d >= spec.backoff - 1e-9)
                 rec['writes'] = list(self.frames_written.get(i, []))
                 out.append(rec)
                 if role == 'main':
